@@ -557,6 +557,125 @@ def _replay_pmat_tensor(toGlobal):
         return dict(confirmed=False, error=repr(e))
 
 
+def _replay_pmat2d():
+    try:
+        from EasyFEA.Models._utils import Get_Pmat
+        th = 0.43
+        a1, a2 = 2.0 * np.array([np.cos(th), np.sin(th)]), 3.0 * np.array([-np.sin(th), np.cos(th)])
+        P2 = Get_Pmat(a1, a2)
+        P3 = Get_Pmat(np.r_[a1, 0.0], np.r_[a2, 0.0])
+        idx = [0, 1, 5]
+        err = float(np.abs(P2 - P3[np.ix_(idx, idx)]).max())
+        return dict(confirmed=err > 1e-9, err_vs_3d_block=err, axis_1=a1.tolist(), axis_2=a2.tolist())
+    except Exception as e:
+        return dict(confirmed=False, error=repr(e))
+
+
+def ob_pmat_2d(shape_kind):
+    """axes given with TWO components (the dim == 2 branch): for every in-plane rotation (tangent half-angle t) and axis lengths l1, l2,
+    P is orthogonal, Apply_Pmat(P, M) is the Kelvin-Mandel image of the Q-rotated 2-D fourth-order tensor (both directions), and P is the
+    [11, 22, 12] block of the matrix obtained from the same axes given with three components."""
+    names = ["t", "l1", "l2", "m0", "m1", "m2", "m3", "m4", "m5"]
+    wit = dict(t=F(2, 7), l1=F(2), l2=F(3), m0=F(5), m1=F(2), m2=F(3), m3=F(7), m4=F(11), m5=F(13))
+    c = Ctx(names, nspare=3, witness=wit)
+    NPs, gu, glob_for = _env(c)
+    t, one = c.sym("t"), c.const(1)
+    co, si = (one - t * t) / (one + t * t), 2 * t / (one + t * t)
+    l1, l2 = c.sym("l1"), c.sym("l2")
+    a1 = np.array([co * l1, si * l1], dtype=object)
+    a2 = np.array([-si * l2, co * l2], dtype=object)
+    z = c.const(0)
+    if shape_kind == "i":
+        A1, A2 = a1, a2
+    elif shape_kind == "ei":
+        A1, A2 = np.stack([a1, a1 * 2]), np.stack([a2, a2])
+    else:
+        A1 = np.stack([np.stack([a1, a1 * 2]), np.stack([a1 * 3, a1])])
+        A2 = np.stack([np.stack([a2, a2]), np.stack([a2 * 2, a2 * 5])])
+    pad = lambda A: np.concatenate([A, np.full(A.shape[:-1] + (1,), z, dtype=object)], axis=-1)
+    P2 = np.asarray(gu["Get_Pmat"](A1, A2, useMandel=True))
+    P3 = np.asarray(gu["Get_Pmat"](pad(A1), pad(A2), useMandel=True))
+    R = [[co, -si], [si, co]]
+    m = [c.sym(f"m{i}") for i in range(6)]
+    M = np.array([[m[0], m[1], m[3]], [m[1], m[2], m[4]], [m[3], m[4], m[5]]], dtype=object)      # any symmetric 2-D law (Kelvin-Mandel)
+    r2 = c.sqrt_rational(F(2))
+    pairs = [(0, 0), (1, 1), (0, 1)]
+
+    def to_tensor(Mk):
+        T = np.empty((2, 2, 2, 2), dtype=object)
+        for I, (i, j) in enumerate(pairs):
+            for J, (k, l) in enumerate(pairs):
+                v = Mk[I, J] / ((r2 if i != j else 1) * (r2 if k != l else 1))
+                for (p_, q_) in {(i, j), (j, i)}:
+                    for (r_, s_) in {(k, l), (l, k)}:
+                        T[p_, q_, r_, s_] = v
+        return T
+
+    def to_km(T):
+        return np.array([[T[i, j, k, l] * ((r2 if i != j else 1) * (r2 if k != l else 1)) for (k, l) in pairs] for (i, j) in pairs], dtype=object)
+    n = 0
+    lead = P2.shape[:-2]
+    idx3 = [0, 1, 5]
+    for idx in itertools.product(*[range(s_) for s_ in lead]):
+        Pm = P2[idx]
+        ok, why = _eqm(c, Pm.T @ Pm, np.eye(3, dtype=int))
+        n += 9
+        if not ok:
+            raise Refuted(f"Get_Pmat (2-component axes) [{shape_kind}{idx}]: P^T P != I at {why[0]}: {why[1]}", signature=f"pmat2d:orthogonal:{shape_kind}", replay=_replay_pmat2d())
+        blk = np.array([[P3[idx][i, j] for j in idx3] for i in idx3], dtype=object)
+        ok, why = _eqm(c, Pm, blk)
+        n += 9
+        if not ok:
+            raise Refuted(f"Get_Pmat (2-component axes) [{shape_kind}{idx}] differs from the [11,22,12] block of the matrix of the same axes given with 3 components at {why[0]}: {why[1]}",
+                          cex=dict(t="2/7", l1="2", l2="3"), signature=f"pmat2d:block:{shape_kind}", replay=_replay_pmat2d())
+        for toGlobal in (True, False):
+            got = np.asarray(gu["Apply_Pmat"](Pm, M, toGlobal=toGlobal))
+            Rm = np.array(R if toGlobal else [[R[j][i] for j in range(2)] for i in range(2)], dtype=object)
+            T = to_tensor(M)
+            T = np.einsum("ia,abcd->ibcd", Rm, T)
+            T = np.einsum("jb,ibcd->ijcd", Rm, T)
+            T = np.einsum("kc,ijcd->ijkd", Rm, T)
+            T = np.einsum("ld,ijkd->ijkl", Rm, T)
+            ok, why = _eqm(c, got, to_km(T))
+            n += 9
+            if not ok:
+                raise Refuted(f"Apply_Pmat(P(2-component axes), M, toGlobal={toGlobal}) [{shape_kind}{idx}] differs from the Q-rotated fourth-order tensor at {why[0]}: {why[1]}",
+                              cex=dict(t="2/7", l1="2", l2="3"), signature=f"pmat2d:tensor:{shape_kind}:{toGlobal}", replay=_replay_pmat2d())
+    return Verdict(DISCHARGED, backend="ring-normal-form over QQ(t,l1,l2,m*)[sqrt2]", sub=n)
+
+
+def ob_pmat_voigt(dim):
+    """Get_Pmat(useMandel=False) returns (Ps, Pe) with Ps = Ds Pm Ds^-1 and Pe = De Pm De^-1 (Ds = diag(1.., 1/sqrt2..), De = diag(1.., sqrt2..)):
+    the Voigt stress / strain vectors transform as the Kelvin-Mandel ones do; hence Ps^-1 = Pe^T."""
+    if dim == 3:
+        c, NPs, gu, R, A1, A2 = _pmat_case("i")
+    else:
+        c = Ctx(["t", "l1", "l2"], nspare=3, witness=dict(t=F(2, 7), l1=F(2), l2=F(3)))
+        NPs, gu, glob_for = _env(c)
+        t, one = c.sym("t"), c.const(1)
+        co, si = (one - t * t) / (one + t * t), 2 * t / (one + t * t)
+        A1 = np.array([co * c.sym("l1"), si * c.sym("l1")], dtype=object)
+        A2 = np.array([-si * c.sym("l2"), co * c.sym("l2")], dtype=object)
+    Pm = np.asarray(gu["Get_Pmat"](A1, A2, useMandel=True))
+    Ps, Pe = gu["Get_Pmat"](A1, A2, useMandel=False)
+    Ps, Pe = np.asarray(Ps), np.asarray(Pe)
+    r2 = c.sqrt_rational(F(2))
+    nn, ns = (3, 3) if dim == 3 else (2, 1)
+    d = [c.const(1)] * nn + [r2] * ns
+    N = nn + ns
+    wantS = np.array([[Pm[i, j] * d[j] / d[i] for j in range(N)] for i in range(N)], dtype=object)
+    wantE = np.array([[Pm[i, j] * d[i] / d[j] for j in range(N)] for i in range(N)], dtype=object)
+    for nm, got, want in (("Ps", Ps, wantS), ("Pe", Pe, wantE)):
+        ok, why = _eqm(c, got, want)
+        if not ok:
+            raise Refuted(f"Get_Pmat(useMandel=False), dim {dim}: {nm} differs from the Voigt image of the Kelvin-Mandel matrix at {why[0]}: {why[1]}", signature=f"pmat:voigt:{dim}:{nm}",
+                          replay=dict(confirmed=True, note="extracted function evaluated symbolically"))
+    ok, why = _eqm(c, Ps @ Pe.T, np.eye(N, dtype=int))
+    if not ok:
+        raise Refuted(f"Get_Pmat(useMandel=False), dim {dim}: Ps Pe^T != I at {why[0]}", signature=f"pmat:voigt:{dim}:inverse", replay=dict(confirmed=True))
+    return Verdict(DISCHARGED, backend="ring-normal-form", sub=3 * N * N)
+
+
 HALF_TURNS = {"x": [[1, 0, 0], [0, -1, 0], [0, 0, -1]], "y": [[-1, 0, 0], [0, 1, 0], [0, 0, -1]], "z": [[-1, 0, 0], [0, -1, 0], [0, 0, 1]]}
 
 
@@ -593,6 +712,11 @@ def build(tier, seed):
     for tg in (True, False):
         obs.append(Ob(f"C11.Pmat.tensor.{'toGlobal' if tg else 'toMaterial'}", ob_pmat_tensor, (tg,), "P", (fu("Get_Pmat"), fu("Apply_Pmat")),
                       clause="Apply_Pmat == Kelvin-Mandel image of the rotated 4th-order tensor", timeout=900))
+    for k in ("i", "ei", "epi"):
+        obs.append(Ob(f"C11.Pmat.2d.{k}", ob_pmat_2d, (k,), "P" if k == "i" else "B", (fu("Get_Pmat"), fu("Apply_Pmat")), bound=None if k == "i" else "batched shape e,p <= 2",
+                      clause="axes given with 2 components: P orthogonal for any lengths, == the [11,22,12] block of the 3-component result, Apply_Pmat == Q-rotated 2-D fourth-order tensor (both directions), all in-plane rotations", timeout=600))
+    for dim in (2, 3):
+        obs.append(Ob(f"C11.Pmat.voigt.{dim}d", ob_pmat_voigt, (dim,), "P", (fu("Get_Pmat"),), clause="(Ps, Pe) are the Voigt images of the Kelvin-Mandel matrix; Ps Pe^T == I; all rotations, any axis lengths", timeout=600))
     obs.append(Ob("canary.iso.reduction", ob_iso_reduction, (True, True), "P", expect=REFUTED, timeout=120))
     obs.append(Ob("canary.TI.inverse", ob_material_inverse, ("TransverselyIsotropic", True), "P", expect=REFUTED, timeout=300))
     functions = {}
